@@ -317,21 +317,18 @@ Qed.
 
 Lemma vgood_accept s : vgood s (accept s).
 Proof.
-  unfold accept. destruct (negb (s_srv s)); [exact I|].
+  unfold accept. destruct (negb (s_srv s) || s_dying s); [exact I|].
   match goal with |- vgood s (if ?b then establish ?s1 0 ?c else _) => assert (L : same_v s s1) by apply (same_v_add s _ CbServer) end.
   destruct (_ =? 0).
   - eapply vgood_weaken; [exact L|apply vgood_establish].
   - apply vgood_ret. eapply same_v_trans; [exact L|apply same_v_enq].
 Qed.
 
-Lemma vgood_srv_destroy_from n : forall s c, vgood s (srv_destroy_from s n c).
+Lemma vgood_srv_hand s c : vgood s (srv_hand s c).
 Proof.
-  induction n as [|n IH]; intros s c; cbn [srv_destroy_from]; [apply vgood_ret, same_v_refl|].
-  destruct (getc s c) as [k|] eqn:Hg; [|apply vgood_ret, same_v_refl].
-  destruct (k_ccb k); try apply IH. destruct (k_mapped k && k_alive k); [|apply IH].
-  assert (L : same_v s (put s c (set_own k CbServer false (k_urefs k) (k_delayed k)))).
+  unfold srv_hand. destruct (getc s c) as [k|] eqn:Hg; [|exact I].
+  assert (L : same_v s (put s c (set_own k (k_ccb k) false (k_urefs k) (k_delayed k)))).
   { apply same_v_put. intros k0 Hk0 Hv. rewrite Hg in Hk0. injection Hk0 as <-. split; [exact Hv|reflexivity]. }
-  apply vgood_bind; [|intros s1; apply IH].
   destruct (k_loop k =? 0).
   - eapply vgood_weaken; [exact L|apply vgood_connect_destroyed].
   - apply vgood_ret. eapply same_v_trans; [exact L|apply same_v_enq].
@@ -423,8 +420,9 @@ Theorem vgood_step s o : Inv s -> vgood s (step true s o).
 Proof.
   intros [[G HC] HH]. destruct o; cbn [step].
   - apply vgood_finish, vgood_accept.
-  - destruct (negb (s_srv s)); [exact I|]. destruct (_ && _); [exact I|]. destruct (_ && _); [exact I|]. apply vgood_finish.
-    apply vgood_bind; [apply vgood_srv_destroy_from|]. intros s1. apply vgood_ret, same_v_conns. reflexivity.
+  - destruct (negb (s_srv s)); [exact I|]. destruct (_ && _); [exact I|]. destruct (next_entry (s_conns s) 0) as [c0|].
+    + apply vgood_finish. eapply vgood_weaken; [|apply vgood_srv_hand]. apply same_v_conns. reflexivity.
+    + apply vgood_finish, vgood_ret, same_v_conns. reflexivity.
   - apply vgood_finish, vgood_cli_connect.
   - apply vgood_finish, vgood_cli_destroy.
   - destruct (getl s l) as [v|]; [|exact I]. destruct (q_idle v && negb (gone s l)); [|exact I]. apply vgood_ret, same_v_conns. reflexivity.
@@ -435,7 +433,7 @@ Proof.
     destruct (gi_placed s G l v t Hv Hin) as [_ [_ Hpl]].
     destruct t; try discriminate Hn; destruct Hpl as (k1 & Hk1 & _ & Hs); rewrite Hk1 in Hk; injection Hk as <-; apply Hs, Hn.
   - destruct (getl s l) as [v|]; [|exact I]. destruct (q_batch v); [|exact I]. destruct (negb (q_drain v)); [exact I|].
-    destruct (quitting s l); [destruct (_ && _); [exact I|]|]; apply vgood_finish, vgood_ret, same_v_conns; reflexivity.
+    destruct (quitting s l); [destruct (_ && _); [exact I|]; destruct (_ && _); [exact I|]|]; apply vgood_finish, vgood_ret, same_v_conns; reflexivity.
   - destruct (getc s c) as [k|]; [|exact I]. apply vgood_finish, vgood_ev_step.
   - destruct (getc s c) as [k|] eqn:Hg; [|exact I]. destruct (k_delayed k); [exact I|]. destruct (negb _); [exact I|].
     apply vgood_finish, vgood_move.
